@@ -22,11 +22,111 @@ CORE_CHECKSUM_CHARSET = "qpzry9x8gf2tvdw0s3jn54khce6mua7l"
 CORE_GEN = {1: 0xF5DEE51989, 2: 0xA9FDCA3312, 4: 0x1BAB10E32D, 8: 0x3706B1677A, 16: 0x644D626FFD}
 
 
+def _core_polymod(c, val):
+    c0 = c >> 35
+    c = ((c & 0x7FFFFFFFF) << 5) ^ val
+    for bit, g in CORE_GEN.items():
+        if c0 & bit:
+            c ^= g
+    return c
+
+
+def _core_descsum(s):
+    """DescriptorChecksum() of Bitcoin Core (script/descriptor.cpp), the reference the library's function is compared with"""
+    c, cls, clscount = 1, 0, 0
+    for ch in s:
+        pos = CORE_INPUT_CHARSET.find(ch)
+        if pos == -1:
+            return None
+        c = _core_polymod(c, pos & 31)
+        cls = cls * 3 + (pos >> 5)
+        clscount += 1
+        if clscount == 3:
+            c = _core_polymod(c, cls)
+            cls, clscount = 0, 0
+    if clscount > 0:
+        c = _core_polymod(c, cls)
+    for _ in range(8):
+        c = _core_polymod(c, 0)
+    c ^= 1
+    return "".join(CORE_CHECKSUM_CHARSET[(c >> (5 * (7 - j))) & 31] for j in range(8))
+
+
+def _descsum_cells(ctx):
+    """calc_poly_mod and calc_core_checksum evaluated against Bitcoin Core's algorithm: the step function on every (set top bit, 5-bit value)
+    cell, and the checksum on every symbol of the input character set in each of the three group positions, on every length 0..12, on a real
+    descriptor and on strings with a character outside the set (bounded in the text length; the function treats every symbol alike inside one
+    loop).  None when outside the evaluator's subset."""
+    from sa.cells import Evaluator, Raised, Undecided
+    out = []
+    try:
+        mod, fn = rl.get(ctx, "descriptor:calc_poly_mod")
+        bad = None
+        n = 0
+        for top in [0] + [1 << (35 + i) for i in range(5)] + [0x1F << 35, 0x15 << 35]:
+            for val in range(32):
+                n += 1
+                c = top | 0x2AAAAAAAA
+                try:
+                    r = Evaluator(ctx.repo).call("descriptor:calc_poly_mod", [c, val])
+                except Raised as x:
+                    r = "raises %s" % x.name
+                if r != _core_polymod(c, val):
+                    bad = (c, val)
+                    break
+            if bad:
+                break
+        ctx.count("cells", n)
+        if bad:
+            which = [i for i in range(5) if (bad[0] >> (35 + i)) & 1]
+            out.append(ctx.bad("descriptor:calc_poly_mod", "PolyMod step differs from Bitcoin Core for c with top bits %s set and value %d (generator constants / shift 35 / mask "
+                                                           "0x7ffffffff / 5-bit shift)" % (which, bad[1]), fn, mod, key="gen"))
+        else:
+            out.append(ctx.ok("descriptor:calc_poly_mod", "five generator constants equal PolyMod() of Bitcoin Core", fn, mod, key="gen"))
+            out.append(ctx.ok("descriptor:calc_poly_mod", "c0 = c >> 35; c = ((c & 0x7ffffffff) << 5) ^ val", fn, mod, key="shape"))
+        mod2, fn2 = rl.get(ctx, "descriptor:calc_core_checksum")
+        texts = [""] + ["wsh(sortedmulti(2,[aa]"[:k] for k in range(1, 13)]
+        for ch in CORE_INPUT_CHARSET:
+            texts += [ch, "a" + ch, "ab" + ch]
+        texts.append("wsh(sortedmulti(1,[c7d0648a/48h/1h/0h/2h]tpubDEpefcgzY6ZyEV2uF4xcW2z8bZ3DNeWx9h2BcwcX973BHrmkQxJhpAXoSWZeHkmkiTtnUjfERsTDTVCcifW6po3PFR1JRjUUTJHvPpDqJhr/0/*))")
+        bad2 = None
+        for t in texts:
+            ctx.count("cells")
+            try:
+                r = Evaluator(ctx.repo, max_steps=400000).call("descriptor:calc_core_checksum", [t])
+            except Raised as x:
+                r = "raises %s" % x.name
+            if r != _core_descsum(t):
+                bad2 = (t, r)
+                break
+        if bad2 is None:
+            for t in ("wsh(é)", "abc\x01", "a\nb"):
+                ctx.count("cells")
+                try:
+                    r = Evaluator(ctx.repo).call("descriptor:calc_core_checksum", [t])
+                    bad2 = (t, r)
+                    break
+                except Raised:
+                    pass
+        if bad2:
+            out.append(ctx.bad("descriptor:calc_core_checksum", "checksum of %r is %r, Bitcoin Core's DescriptorChecksum gives %r" % (bad2[0][:24], bad2[1], _core_descsum(bad2[0])), fn2, mod2,
+                               key="algo"))
+        else:
+            out.append(ctx.ok("descriptor:calc_core_checksum", "DescriptorChecksum() structure: equals Bitcoin Core's on every symbol of the input set in each group position, lengths 0..12 and "
+                                                               "a full descriptor; symbols outside the set are refused", fn2, mod2, key="algo"))
+    except Undecided:
+        return None
+    return out
+
+
 def c16_1(ctx):
     out = [
         rl.const_eq(ctx, "descriptor", "DESCRIPTOR_INPUT_CHARSET", CORE_INPUT_CHARSET, "Bitcoin Core INPUT_CHARSET"),
         rl.const_eq(ctx, "descriptor", "DESCRIPTOR_CHECKSUM_CHARSET", CORE_CHECKSUM_CHARSET, "Bitcoin Core CHECKSUM_CHARSET"),
     ]
+    ev = _descsum_cells(ctx)
+    if ev is not None:
+        return out + ev
     mod, fn = rl.get(ctx, "descriptor:calc_poly_mod")
     f = Folder(ctx.repo, mod.name)
     gen = {}
